@@ -25,6 +25,9 @@ CONSTANTS Addrs,      \* address names
           Peers,      \* identities a remote may authenticate as
           MaxCid,     \* connection ids that may be allocated
           MaxOpenLen, \* addresses per open()
+          Kind,       \* "tcp" | "ws": WebSocketTransport is the same state machine (websocket/mod.rs is a copy of
+                      \* tcp/mod.rs); it differs in that an address without /p2p is refused (dial(): Err before any
+                      \* bookkeeping, open(): that address can only fail) and in reporting addresses as requested
           Mutant      \* "" or the name of a seeded defect (negative self-test models)
 
 VARIABLES pd, pin, pconn, praw, opened, popen, cf,
@@ -42,8 +45,11 @@ vars == <<pd, pin, pconn, praw, opened, popen, cf, req, auth, next, nconn, mon, 
 \* address a names peer WantOf(a) ("" = no /p2p component); its socket part is SockOf(a)
 WantOf(a) == IF a = "a3" THEN "" ELSE "P1"
 SockOf(a) == "s" \o a
+Reported(a) == IF Kind = "ws" THEN a ELSE SockOf(a)
+Dialable(a) == Kind = "tcp" \/ WantOf(a) # ""
 Addrs2 == {"a1", "a2"}
 Addrs3 == {"a1", "a2", "a3"}
+Addrs13 == {"a1", "a3"}
 PeersDef == {"P1", "P2"}
 
 Init ==
@@ -67,7 +73,7 @@ Event(e, h) == Feed(MonEvent(mon, e), h)
 
 \* dial(): the address parses; pending_dials.insert, pending_connections.push
 CDial(a) ==
-  /\ next < MaxCid
+  /\ next < MaxCid /\ Dialable(a)
   /\ LET c == next IN
      /\ next' = next + 1
      /\ pd' = pd \cup {c}
@@ -85,6 +91,15 @@ CDialBad ==
   /\ UNCHANGED <<pd, pin, pconn, praw, opened, popen, cf, auth, nconn, warn>>
   /\ Call([c |-> "dial", cid |-> next, ret |-> "err", addrs |-> <<"bad">>, socks |-> <<"bad">>, wants |-> <<"">>],
           [a |-> "dial_bad", c |-> next])
+
+\* WebSocket dial() of an address without /p2p: multiaddr_into_url()? fails with PeerIdMissing
+CDialNoPeer(a) ==
+  /\ next < MaxCid /\ ~Dialable(a)
+  /\ next' = next + 1
+  /\ req' = (next :> [addrs |-> <<a>>, kind |-> "bad"]) @@ req
+  /\ UNCHANGED <<pd, pin, pconn, praw, opened, popen, cf, auth, nconn, warn>>
+  /\ Call([c |-> "dial", cid |-> next, ret |-> "err", addrs |-> <<a>>, socks |-> <<SockOf(a)>>, wants |-> <<"">>],
+          [a |-> "dial", c |-> next, addr |-> a])
 
 \* open(): pending_raw_connections.push(abortable), cancel_futures.insert
 COpen(as) ==
@@ -169,13 +184,14 @@ PRawConnected(c) ==
   /\ \E i \in 1..Len(req[c].addrs) : \E errset \in SUBSET (ToSetS(req[c].addrs) \ {req[c].addrs[i]}) :
      \E p \in Peers :
        LET a == req[c].addrs[i] errs == SetToSeq(errset) IN
+       /\ Dialable(a)
        /\ (WantOf(a) # "" => p = WantOf(a))        \* negotiate_connection: PeerIdMismatch otherwise
        /\ IF c \in DOMAIN cf
             THEN /\ cf' = Without(cf, c)
                  /\ opened' = opened \cup {c}
                  /\ auth' = (c :> [p |-> p, a |-> a]) @@ auth
                  /\ warn' = warn
-                 /\ Event([k |-> "opened", cid |-> c, addr |-> SockOf(a), errs |-> errs],
+                 /\ Event([k |-> "opened", cid |-> c, addr |-> Reported(a), errs |-> errs],
                           [a |-> "p_raw", c |-> c, res |-> "connected", addr |-> a, errs |-> errs])
             ELSE \* "raw connection without a cancel handle": dropped with a warning
                  /\ warn' = TRUE /\ UNCHANGED <<cf, opened, auth>>
@@ -206,11 +222,11 @@ PConnOk(f) ==
      /\ CASE f.k = "dial" ->
                \E p \in Peers :
                  /\ (WantOf(req[c].addrs[1]) # "" => p = WantOf(req[c].addrs[1]))
-                 /\ Event([k |-> "est", cid |-> c, dir |-> "out", peer |-> p, addr |-> SockOf(req[c].addrs[1])],
+                 /\ Event([k |-> "est", cid |-> c, dir |-> "out", peer |-> p, addr |-> Reported(req[c].addrs[1])],
                           [a |-> "p_conn", c |-> c, res |-> "ok", peer |-> p])
           [] f.k = "neg" ->
                \* the future is `async { Ok(negotiated) }`: the connection authenticated while opening
-               Event([k |-> "est", cid |-> c, dir |-> "out", peer |-> auth[c].p, addr |-> SockOf(auth[c].a)],
+               Event([k |-> "est", cid |-> c, dir |-> "out", peer |-> auth[c].p, addr |-> Reported(auth[c].a)],
                      [a |-> "p_conn", c |-> c, res |-> "ok", peer |-> auth[c].p])
           [] f.k = "in" ->
                \E p \in Peers :
@@ -229,7 +245,7 @@ PConnErr(f) ==
           ELSE Feed(mon, [a |-> "p_conn", c |-> c, res |-> "err"])   \* "Pending inbound connection failed": logged only
 
 Next ==
-  \/ \E a \in Addrs : CDial(a)
+  \/ \E a \in Addrs : CDial(a) \/ CDialNoPeer(a)
   \/ CDialBad
   \/ \E as \in OpenArgs : COpen(as)
   \/ \E c \in Ids : \/ CCancel(c) \/ CNegotiate(c) \/ CDecide(c, "accept") \/ CDecide(c, "reject")
@@ -253,6 +269,7 @@ LegalTransport == mon.bad = ""
 HandlesExact == ~warn /\ DOMAIN cf = praw
 \* bookkeeping is a function of the interface state at every step
 BookkeepingExact == /\ BkExact(mon, Bk)
+                    /\ pd = IdsIn(mon, {"dialing"})
                     /\ IdsIn(mon, {"dialing", "negotiating"}) \subseteq {f.c : f \in pconn}
                     /\ {f.c : f \in pconn} \subseteq IdsIn(mon, {"dialing", "negotiating", "in_neg"})
 \* nothing outstanding in the network  =>  every operation concluded and nothing retained (G7 + L)
